@@ -97,9 +97,9 @@ func init() {
 				c.Death = append(c.Death, "corrupted frame ("+kind+")")
 				e.Ev("corrupt c%d call=%d %s", c.N, req.CallID, kind)
 				if cut {
-					c.mu.Lock()
+					c.lock()
 					c.CutAfter = c.Delivered + len(c.outq) + len(out)
-					c.mu.Unlock()
+					c.unlock()
 				}
 				return out
 			}
